@@ -143,7 +143,7 @@ func (e *Engine) builderAppend(st *State, p PtrV, s StrV) {
 }
 
 func (e *Engine) errValue(id string, msg StrV) Value {
-	return IfaceV{T: e.errType(), V: ErrV{ID: id, Msg: msg}}
+	return IfaceV{T: e.errType(), V: ErrV{ID: id, Msg: msg, Sentinel: e.inInit}}
 }
 
 var errMarkerType types.Type
